@@ -123,6 +123,32 @@ class Spec:
         return r
 
 
+def mem_apply(sp, op):
+    """python copy of `memStep` (EaselModel/Buffer/MemSpecStep.lean): the TOTAL specification of a whole-input buffer (anchors are no-ops,
+    SetOffset anywhere up to the end, eslEINVAL beyond it); returns the expected dict, or "unsafe" for a tryset outside CallerOk"""
+    w = op.split(); name = w[0]
+    kv = dict(x.split("=", 1) for x in w[1:] if "=" in x)
+    if name.startswith("try"): name = name[3:]
+    if name in ("setanchor", "setstable", "raise"):
+        sp.lastp = None
+        return dict(st="ok", bytes=b"", n=0, off=sp.cur)
+    if name == "setoffset":
+        sp.lastp = None
+        o = int(kv["o"])
+        if o > len(sp.src): return dict(st="einval", bytes=b"", n=0, off=sp.cur)
+        sp.cur = o
+        return dict(st="ok", bytes=b"", n=0, off=o)
+    if name == "set" and sp.lastp is not None and sp.lastp + int(kv["k"]) > len(sp.src):
+        sp.lastp = None
+        return "unsafe"
+    return sp.apply(" ".join([name] + w[1:]))
+
+
+def is_mem_case(case):
+    src, ps_eff, ps, mode = case_cfg(case["ops"][0])
+    return mode in ("string", "cstring", "allfile", "mmap", "auto", "open") or (mode in ("pipe", "pipe0") and len(src) < ps_eff)
+
+
 def case_cfg(open_line):
     """(src, page size in force, lower bound of the page size, mode) of a case's `open` line"""
     if open_line.startswith("fsopen"): return open_case_cfg(open_line)   # round4-open
@@ -323,6 +349,8 @@ def mem_case(name, ops):
 
 def mem_corpus():
     out = []
+    # genuine defect (model kept faithful to the code): esl_mem_IsReal passes over any byte that is not a digit, '.', 'e', 'E' or a blank
+    out.append(dict(mem_case("known-isreal-garbage", ["memisreal hex=" + hx(b"1x"), "memisreal hex=" + hx(b"abc1"), "memisreal hex=" + hx(b"--1")]), known_key=K_ISREAL))
     fixed = [b"", b"-", b"0x", b"0X1", b"0", b"-0", b"00", b"08", b"0x8", b"0xg", b"-0x1f", b"0x1F", b" 0x", b"2147483647", b"2147483648", b"-2147483648", b"-2147483649",
              b"9223372036854775807", b"9223372036854775808", b"-9223372036854775808", b"-9223372036854775809", b" \t\n\v\f\r42z", b"+1", b"7fffffff", b"80000000",
              b"-80000000", b"-80000001", b"zz", b"ZZ", b"\xb1", b"1\x002", b"12 34", b"0x7fffffff", b"0x80000000", b"017777777777", b"020000000000", b"-020000000000", b"-020000000001"]
@@ -356,10 +384,30 @@ def mem_cases(rng, quick):
     return [mem_case("mem%d" % i, [mem_gen_op(rng) for _ in range(50)]) for i in range(ncases)]
 
 
+K_ISREAL = "C05:mem:isreal-accepts-garbage"
+
+
+def mem_isreal_documented(b):
+    """esl_mem_IsReal's header: TRUE iff the bytes are 'convertible to a floating point real number by the rules of atof()' (the string
+    version esl_str_IsReal: strtod converts and only whitespace is left); inf/nan are not accepted by the mem version"""
+    try:
+        t = b.decode("ascii").strip(" \t\n\v\f\r")
+        if not t or any(c in t for c in "_nNiIxX"): return False
+        float(t); return True
+    except Exception:
+        return False
+
+
 def mem_monitor(case, out):
     """the implementation's answers against the python oracle of the specification"""
     for i, (op, l) in enumerate(zip(case["ops"], out)):
         if l.startswith(("fault", "atexit")): return None       # reported by the engine as a fault
+        if case.get("known_key") == K_ISREAL and op.startswith("memisreal") and "hex=null" not in op:
+            # known finding, reported on its witness only: the code (and the model, which mirrors it) passes over garbage bytes
+            w = dict(x.split("=", 1) for x in op.split()[1:])
+            b = bytes.fromhex(w["hex"]) if w["hex"] != "-" else b""
+            if l.strip() == "r=1" and not mem_isreal_documented(b):
+                return Failure("monitor", "op %d: esl_mem_IsReal(%r) answered TRUE; its header says TRUE iff the bytes are a real number by the rules of atof()" % (i, b), key=K_ISREAL)
         want = mem_spec(op)
         if want is not None and l.strip() != want:
             return Failure("monitor", "op %d %r answered %r, the specification says %r" % (i, op[:120], l[:80], want[:80]))
@@ -852,7 +900,7 @@ class C05(Prop):
         return out
 
     def mk(self, name, src, m, ps, ops, rep=1, **kw):
-        return dict(name=name, ops=["open mode=%s ps=%d hex=%s%s" % (m, ps, hx(src), " rep=%d" % rep if rep != 1 else "")] + ops, sticky=1, mode=m, ps=ps, **kw)
+        return dict(name=name, ops=["open mode=%s ps=%d hex=%s%s%s" % (m, ps, hx(src), " rep=%d" % rep if rep != 1 else "", " wild=1" if kw.get("wild") else "")] + ops, sticky=1, mode=m, ps=ps, **kw)
 
     def corpus(self, ctx):
         """regression inputs of the three defects repaired in esl_buffer.c (cafe6fe, a12f75c) and the witness of the known finding"""
@@ -995,7 +1043,7 @@ class C05(Prop):
     # ------------------------------------------------------------------ comparison / monitors
     def canonical(self, line):
         if line.startswith("fault"): return "fault"
-        return " ".join(w for w in line.split() if not w.startswith(("moved=", "stale=", "spec=", "valid=")))
+        return " ".join(w for w in line.split() if not w.startswith(("moved=", "stale=", "spec=", "mspec=", "valid=")))
 
     def compare(self, ctx, case, impl_out, model_out):
         """model = implementation (exact), and — on the driver's side channel — the Lean specification `specStep` prescribes
@@ -1009,6 +1057,16 @@ class C05(Prop):
             if a != b and 0 < i < len(ops) and ops[i] == "get" and a.split()[:1] == b.split()[:1] and a.split()[-1:] == b.split()[-1:] and case.get("ps", 0) == 0:
                 continue      # without a page-size override how much Get exposes depends on st_blksize (the monitor checks prefix + page guarantee); with the override the window is compared exactly
             if a != b: return (i, a, b)
+        if case.get("wild") and is_mem_case(case):
+            # outside the contract on a whole-input buffer: the Lean specification `memStep` prescribes what the python copy prescribes
+            sp = Spec(src0)
+            for i, (op, l) in enumerate(zip(ops[1:], model_out[1:]), 1):
+                exp = mem_apply(sp, op)
+                f = dict(x.split("=", 1) for x in l.split() if "=" in x)
+                if exp == "unsafe" or exp is None or "mspec" not in f: continue
+                want = "%s,%s,%d" % (exp["st"], "-" if exp.get("get") else hx(exp["bytes"]), exp["off"])
+                if f["mspec"] != want: return (i, "python-memStep " + want, "lean-memStep " + f["mspec"])
+            return None
         if case.get("nomonitor"): return None
         sp = Spec(src0)
         for i, (op, l) in enumerate(zip(ops[1:], model_out[1:]), 1):
@@ -1030,6 +1088,32 @@ class C05(Prop):
         if case.get("mem"): return mem_monitor(case, out)   # round4-mem
         r4 = open_monitor(self, case, out)        # round4-open
         if r4 is not NotImplemented: return r4    # round4-open
+        if case.get("wild") and is_mem_case(case):
+            # whole-input buffer, any history: the implementation against the TOTAL specification memStep (theorem history_memory_exact)
+            src = case_cfg(case["ops"][0])[0]
+            sp = Spec(src)
+            for i, (op, l) in enumerate(zip(case["ops"][1:], out[1:]), 1):
+                if l.startswith(("fault", "atexit")): return None
+                exp = mem_apply(sp, op)
+                where = "op %d %r (whole-input mode %s, %d input bytes, history outside the API contract)" % (i, op, case.get("mode"), len(src))
+                if exp == "unsafe":
+                    if l.strip() != "unsafe": return Failure("monitor", where + ": harness executed a Set beyond the exposed bytes: " + l[:60])
+                    continue
+                if exp is None: return None
+                got = parse_out(l)
+                if got["st"] != exp["st"]:
+                    return Failure("monitor", where + ": status %s, the total specification says %s" % (got["st"], exp["st"]))
+                if int(got.get("off", -1)) != exp["off"]:
+                    return Failure("monitor", where + ": offset %s afterwards, the total specification says %d" % (got.get("off"), exp["off"]))
+                if got.get("a", "-") != "-":
+                    return Failure("monitor", where + ": anchor record %s in a whole-input buffer (anchors are documented no-ops)" % got["a"])
+                if exp.get("get"):
+                    b = bytes.fromhex(got["hex"]) if got["hex"] != "-" else b""
+                    if b != src[sp.cur:]: return Failure("monitor", where + ": Get exposes %d bytes, the whole rest of the input is %d" % (len(b), len(src) - sp.cur))
+                elif op.split()[0].endswith("0"): pass
+                elif got["hex"] != hx(exp["bytes"]) or int(got.get("n", -1)) != exp["n"]:
+                    return Failure("monitor", where + ": returned %s n=%s, the total specification says %s n=%d" % (got["hex"][:80], got.get("n"), hx(exp["bytes"])[:80], exp["n"]))
+            return None
         if case.get("wild"):
             # outside the contract: only the documented statuses (eslEINVAL for a refused SetOffset/SetAnchor), never an internal error
             for i, (op, l) in enumerate(zip(case["ops"][1:], out[1:]), 1):
